@@ -1,10 +1,23 @@
 /-
   C04 — Message reader reassembles every valid frame stream exactly under any chunking.
-  (Work in progress: the per-read layer is proved here; the message-level refinement theorem
-  `reader_refines_frames` is being built on top of it.)
+
+  Per-read layer (`rawRead_flat`, `frameRead_plain`) and the message level:
+  `message_delivered` — for every data message (any number of fragments, empty ones included,
+  control frames interleaved anywhere, masked or not), every chunking of the transport (empty
+  chunks and data-with-EOF included) and every sequence of positive caller buffer sizes, the bytes
+  Reader.Read hands out are a prefix of the concatenation of the unmasked fragment payloads, in
+  order; no error other than the final io.EOF is possible; the loop reaches that io.EOF after at
+  most (bytes + chunks of the transport + 1) reads; at that point the whole message has been
+  delivered, the transport stands exactly behind the message's last frame and the reader is in
+  the state of a new reader (`Done`).
+  Scope of the Lean statement (the rest of the property is carried by the stream oracle and the
+  correspondence, DESIGN.md §0.3): reader without receive extension, CheckUTF8 off, OnIntermediate
+  unset (interleaved control frames are skipped — their exact hand-over to a handler is C08 /
+  oracle territory), transport that does not deliver its last bytes together with a *failure*.
 -/
 import WsVerif.Model.Helper
 import WsVerif.Props.C02
+import WsVerif.Proofs.Reader
 namespace Ws.C04
 open Ws Ws.Spec
 
@@ -72,5 +85,142 @@ theorem frameRead_plain (r : Rd) (s : Src) (k : Nat) (hs : Bytes.WF s.bytes) (hm
       Bool.false_eq_true, if_false]
     refine ⟨_, _, _, _, _, rfl, rfl, rfl, ?_, rfl, rfl⟩
     simp [a3, xorSpec]
+
+
+/-! ### whole messages -/
+
+open Ws.RdProof
+
+theorem stbits_tbl :
+    ((List.range 256).all fun s =>
+      stIs (stSet s stFragmented) stFragmented
+      && (stSet (stSet s stFragmented) stFragmented == stSet s stFragmented)
+      && !stIs (stClear (stSet s stFragmented) stFragmented) stFragmented
+      && (stIs s stFragmented || stClear (stSet s stFragmented) stFragmented == s)) = true := by decide +kernel
+
+theorem stbits (s : Nat) (h : s < 256) :
+    stIs (stSet s stFragmented) stFragmented = true
+    ∧ stSet (stSet s stFragmented) stFragmented = stSet s stFragmented
+    ∧ stIs (stClear (stSet s stFragmented) stFragmented) stFragmented = false
+    ∧ (stIs s stFragmented = false → stClear (stSet s stFragmented) stFragmented = s) := by
+  have := List.all_eq_true.mp stbits_tbl s (List.mem_range.mpr h)
+  simp only [Bool.and_eq_true, beq_iff_eq, Bool.not_eq_true', Bool.or_eq_true] at this
+  obtain ⟨⟨⟨h1, h2⟩, h3⟩, h4⟩ := this
+  refine ⟨h1, h2, h3, fun hf => ?_⟩
+  rcases h4 with h4 | h4
+  · rw [hf] at h4; exact absurd h4 (by decide)
+  · exact h4
+
+/-- the frames of one data message as the peer sends them: a first data frame `f0`; if it is not
+    final, the rest `fs` (fragments and interleaved control frames, the final fragment last) -/
+structure Message (r0 : Rd) (f0 : WFrame) (fs : List WFrame) : Prop where
+  ok0 : f0.OK
+  data0 : opIsControl f0.h.op = false
+  acc0 : AcceptsAt r0.skipCheck r0.state r0.maxFrame f0.h
+  rest : if f0.h.fin then fs = [] else Tail r0.skipCheck (stSet r0.state stFragmented) r0.maxFrame fs
+
+/-- **C04, message level.** See the file header. -/
+theorem message_delivered (r0 : Rd) (s : Src) (cx : Ctx) (f0 : WFrame) (fs : List WFrame) (rest : Bytes)
+    (ks : List Nat) (hpos : ∀ k ∈ ks, 0 < k)
+    (hidle : r0.hasFrame = false) (hnf : r0.fragmented = false) (hst : r0.state < 256)
+    (hext : r0.ext = false) (hu8 : r0.checkUTF8 = false)
+    (hm : Message r0 f0 fs)
+    (hb : s.bytes = encodeFs (f0 :: fs) ++ rest) (hwf : Bytes.WF s.bytes) (htame : Src.Tame s) :
+    ∃ r1 s1 out e r' s',
+      r0.nextFrame s cx none = (some f0.h, none, r1, s1, cx)
+      ∧ reads r1 s1 cx ks = some (out, e, r', s', cx)
+      ∧ (∃ more, dataPlain (f0 :: fs) = out ++ more)
+      ∧ (e = none ∨ e = some .eof)
+      ∧ (e = some .eof → out = dataPlain (f0 :: fs) ∧ s'.bytes = rest ∧ Done (stSet r0.state stFragmented) r0 r'
+                          ∧ r'.state = r0.state)
+      ∧ (mu s < ks.length → e = some .eof) := by
+  obtain ⟨b1, b2, b3, b4⟩ := stbits r0.state hst
+  have hfr0 : stIs r0.state stFragmented = false := by simpa [Rd.fragmented] using hnf
+  have hbytes : s.bytes = rfcEncode f0.h ++ (f0.wire ++ (encodeFs fs ++ rest)) := by
+    rw [hb]; simp [encodeFs, WFrame.enc, List.append_assoc]
+  have hwt : Bytes.WF (f0.wire ++ (encodeFs fs ++ rest)) := by
+    rw [hbytes] at hwf; exact wf_append_right hwf
+  obtain ⟨s1, hrh, hb1, ht1, hmu1⟩ := readHeader_ok f0.h hm.ok0.hwf _ hwt s hbytes htame
+  have hacc : Accepts r0 f0.h := hm.acc0
+  have hnext := nextFrame_data r0 s s1 cx none f0.h hrh hacc hext hm.data0
+  let st := stSet r0.state stFragmented
+  have hc : Common r0.skipCheck st r0.maxFrame (enter r0 f0.h) s1 :=
+    ⟨by simp [enter, hext], by simp [enter, hu8], by simp [enter], by simp [enter], ht1, by rw [hb1]; exact hwt, b1, b2, b3⟩
+  have hpl : plainOf (enter r0 f0.h) f0.wire = f0.plain := rfl
+  have hsync : Sync r0.skipCheck st r0.maxFrame rest (enter r0 f0.h) s1 (dataPlain (f0 :: fs)) := by
+    have hrest := hm.rest
+    by_cases hfin : f0.h.fin = true
+    · simp only [hfin, if_true] at hrest
+      subst hrest
+      have : dataPlain [f0] = plainOf (enter r0 f0.h) f0.wire := by
+        simp [dataPlain, hm.data0, hpl]
+      rw [this]
+      refine Sync.lastFrame _ s1 f0.wire hc ?_ ?_
+      · exact ⟨by simp [enter], by simp [enter, hu8], by rw [hb1]; simp [encodeFs], by simp [enter, hm.ok0.len],
+          by rw [hb1]; exact hwt, by simp [enter]; exact hm.ok0.mwf, ht1⟩
+      · simp [enter, hfin, st, b4 hfr0]
+        have : stClear r0.state stFragmented = r0.state := by
+          have h1 := b4 hfr0
+          -- clearing a bit that is not set changes nothing
+          have := List.all_eq_true.mp (by decide +kernel :
+            ((List.range 256).all fun s => stIs s stFragmented || stClear s stFragmented == s) = true) r0.state (List.mem_range.mpr hst)
+          simp only [Bool.or_eq_true, beq_iff_eq] at this
+          rcases this with h | h
+          · rw [hfr0] at h; exact absurd h (by decide)
+          · exact h
+        exact this
+    · have hfin' : f0.h.fin = false := by simpa using hfin
+      simp only [hfin', Bool.false_eq_true, if_false] at hrest
+      have : dataPlain (f0 :: fs) = plainOf (enter r0 f0.h) f0.wire ++ dataPlain fs := by
+        simp [dataPlain, hm.data0, hpl]
+      rw [this]
+      refine Sync.mid _ s1 f0.wire fs hc ?_ (by simp [enter, hfin', st]) hrest
+      exact ⟨by simp [enter], by simp [enter, hu8], hb1, by simp [enter, hm.ok0.len],
+          by rw [hb1]; exact hwt, by simp [enter]; exact hm.ok0.mwf, ht1⟩
+  obtain ⟨out, e, r', s', hrd, hcase⟩ := reads_sync r0.skipCheck st r0.maxFrame rest ks hpos _ s1 cx _ hsync
+  refine ⟨enter r0 f0.h, s1, out, e, r', s', hnext, hrd, ?_, ?_, ?_, ?_⟩
+  · rcases hcase with ⟨_, rem', h1, _, _⟩ | ⟨_, h1, _⟩
+    · exact ⟨rem', h1⟩
+    · exact ⟨[], by rw [h1]; simp⟩
+  · rcases hcase with ⟨h1, _⟩ | ⟨h1, _⟩
+    · exact Or.inl h1
+    · exact Or.inr h1
+  · intro he
+    rcases hcase with ⟨h1, _⟩ | ⟨_, h1, h2, _, h4⟩
+    · rw [h1] at he; exact absurd he (by simp)
+    · refine ⟨h1.symm, h2, ?_, ?_⟩
+      · exact ⟨h4.has, h4.state, h4.op, h4.u8, h4.raw, h4.u8on, by simpa [enter] using h4.cfg⟩
+      · rw [h4.state]; exact b4 hfr0
+  · intro hlen
+    rcases hcase with ⟨_, _, _, _, hw⟩ | ⟨h1, _⟩
+    · exfalso
+      have : weight (enter r0 f0.h) s1 = mu s1 + 1 := by simp [weight, enter]
+      omega
+    · exact h1
+
+/-! Non-vacuity: a server-side reader, a masked text message in three fragments (the middle one
+    empty) with a masked ping between them, followed by the first bytes of the next frame; the
+    transport delivers it in chunks that cut the header, the mask and a payload, with an empty
+    chunk and the last data arriving together with io.EOF; the caller reads with buffers 1, 2, 64, … -/
+def exF0 : WFrame := ⟨⟨false, 0, 1, true, ⟨1, 2, 3, 4⟩, 3⟩, [0x69, 0x67, 0x6f]⟩          -- "hel" masked
+def exPing : WFrame := ⟨⟨true, 0, 9, true, ⟨9, 9, 9, 9⟩, 2⟩, [0x79, 0x70]⟩
+def exF1 : WFrame := ⟨⟨false, 0, 0, true, ⟨0, 0, 0, 0⟩, 0⟩, []⟩
+def exF2 : WFrame := ⟨⟨true, 0, 0, true, ⟨5, 6, 7, 8⟩, 2⟩, [0x69, 0x69]⟩                 -- "lo" masked
+def exR0 : Rd := { state := 1 }
+def exBytes : Bytes := encodeFs [exF0, exPing, exF1, exF2] ++ [0x81, 0x85]
+def exSrc : Src := { chunks := [exBytes.take 1, exBytes.drop 1 |>.take 4, [], exBytes.drop 5 |>.take 3, exBytes.drop 8], fin := .eof, dataWithFin := true }
+
+example : Message exR0 exF0 [exPing, exF1, exF2] := by
+  refine ⟨⟨by decide, by decide, by decide, by decide⟩, by decide, ⟨by decide, by decide⟩, ?_⟩
+  show Tail false 9 0 [exPing, exF1, exF2]
+  refine Tail.ctl _ _ ⟨by decide, by decide, by decide, by decide⟩ (by decide) ⟨by decide, by decide⟩ ?_
+  refine Tail.cont _ _ ⟨by decide, by decide, by decide, by decide⟩ (by decide) (by decide) ⟨by decide, by decide⟩ ?_
+  exact Tail.last _ ⟨by decide, by decide, by decide, by decide⟩ (by decide) (by decide) ⟨by decide, by decide⟩
+example : exSrc.bytes = exBytes ∧ Bytes.WF exSrc.bytes ∧ Src.Tame exSrc := by
+  refine ⟨by decide, by decide, fun _ => rfl⟩
+example :
+    (match exR0.nextFrame exSrc {} none with
+     | (_, _, r1, s1, cx) => (reads r1 s1 cx [1, 2, 64, 64, 64, 64, 64, 64, 64]).map fun x => (x.1, x.2.1, x.2.2.2.1.bytes))
+      = some ([0x68, 0x65, 0x6c, 0x6c, 0x6f], some .eof, [0x81, 0x85]) := by decide
 
 end Ws.C04
